@@ -306,7 +306,7 @@ def gen_cases(rng, thorough: bool) -> list:
                         {"r": "list", "xs": [A("object", [3], 3)]}):
                 add(sel, {"kind": "real", "op": opn}, {"names": [outname], "vals": [val]})
             add(sel, {"kind": "real", "op": opn}, {"names": ["nope"], "vals": [seq_ok]})
-            add(sel, {"kind": "real", "op": opn}, {"raise": {"isExc": True, "id": rng.randrange(16)}},
+            add(sel, {"kind": "real", "op": opn}, {"raise": {"isExc": True, "id": rng.randrange(len(L.EXC_CLASSES))}},
                 rng.choice(["init", "run"]))
     # (7) inline: results mapped by the inlined graph's output names; NONE switch
     y_ok, z_ok = A("i64", [2], 14), A("f32", [2], 15)
@@ -320,6 +320,12 @@ def gen_cases(rng, thorough: bool) -> list:
                   {"raise": {"isExc": True, "id": 4}}, {"raise": {"isExc": False, "id": 0}}):
             for inp in ("const", "arg"):
                 add(sel, {"kind": "inline", "input": inp}, b)
+    # (7a) every exception class also at a real multi-output operator and at an inlined model WITH inputs (fixed part)
+    for sel in sels:
+        for i in range(len(L.EXC_CLASSES)):
+            at = ("init", "run")[i % 2]
+            add(sel, {"kind": "real", "op": ("unique", "identity", "shape")[i % 3]}, {"raise": {"isExc": True, "id": i}}, at)
+            add(sel, {"kind": "inline", "input": "const"}, {"raise": {"isExc": True, "id": i}}, ("run", "init")[i % 2])
     # (7b) inlined node-less pass-through model fed with a constant: every fault at session creation / run
     x_ok = A("i64", [2], 14)
     for sel in sels + ["none"]:
